@@ -3,7 +3,7 @@
    makes one of these proofs fail. *)
 From Coq Require Import Orders List Bool.
 From PG Require Import Model.Text Model.VS Model.Term Model.Range.
-From PG Require Import Gen.RangeTables Gen.TermTables Gen.VSDefaults.
+From PG Require Import Gen.RangeTables.
 
 Module GenRangeEq (V : UsualOrderedTypeFull).
   Module G := GenRange V.
@@ -49,31 +49,3 @@ Module GenRangeEq (V : UsualOrderedTypeFull).
   Theorem range_within_bounds_matches_source : forall v sg, G.gen_within_bounds v sg = within_bounds v sg.
   Proof. exact gen_within_bounds_eq. Qed.
 End GenRangeEq.
-
-Section GenTermEq.
-  Context {VS Vr : Type} (O : VSOps VS Vr).
-
-  Theorem term_tables_match_source :
-    (forall t, gen_t_negate t = t_negate (VS := VS) t)
-    /\ (forall t v, gen_t_contains O t v = t_contains O t v)
-    /\ (forall t u, gen_t_intersection O t u = t_intersection O t u)
-    /\ (forall t u, gen_t_union O t u = t_union O t u)
-    /\ (forall t u, gen_t_is_disjoint O t u = t_is_disjoint O t u)
-    /\ (forall t u, gen_t_subset_of O t u = t_subset_of O t u)
-    /\ (forall t u, gen_t_relation_with O t u = t_relation_with O t u).
-  Proof.
-    repeat split; intros; unfold gen_t_relation_with, t_relation_with;
-      try (destruct t; try destruct u; reflexivity).
-  Qed.
-End GenTermEq.
-
-Section GenVSEq.
-  Context {VS Vr : Type} (R : VSReq VS Vr).
-
-  Theorem vs_defaults_match_source :
-    gen_full_default R = full_default R
-    /\ (forall a b, gen_union_default R a b = union_default R a b)
-    /\ (forall a b, gen_is_disjoint_default R a b = is_disjoint_default R a b)
-    /\ (forall a b, gen_subset_of_default R a b = subset_of_default R a b).
-  Proof. repeat split. Qed.
-End GenVSEq.
